@@ -7,7 +7,9 @@ re-read from /repo's current tree on every run (regular C, regex scan):
 * what `_g_ir_module_build_typelib` (girmodule.c) stores in each `header->*_blob_size`
   (`sizeof (Struct)` or a literal) and what `validate_header` (gitypelib.c) compares each one with;
 * G_IR_MAGIC as bytes, the major version written and the one accepted, ACCESSOR_SENTINEL,
-  ASYNC_SENTINEL, NUM_SECTIONS, the boundary used by the ALIGN_VALUE calls in girnode.c/girmodule.c.
+  ASYNC_SENTINEL, NUM_SECTIONS, the boundary used by the ALIGN_VALUE calls in girnode.c/girmodule.c;
+* the C type of the variable of girmodule.c that receives `_gi_typelib_hash_builder_get_buffer_size ()`
+  (the size of the directory index section) and the return type of that function in gthash.c.
 
 C06's `decide` theorems compare these tables with Gen/TypelibLayout (measured by the C probe)
 and with the constants written in the property file."""
@@ -109,6 +111,27 @@ def main():
     align_def = sorted(set(re.sub(r'\s+', ' ', d.strip()) for src in (mod, node) for d in
                            re.findall(r'#define\s+ALIGN_VALUE\(this,\s*boundary\)\s*\\\n(.*)', src)))
 
+    # the integer type holding the size of the directory index section: the local variable (anywhere in
+    # girmodule.c) assigned from _gi_typelib_hash_builder_get_buffer_size (), and what the builder returns
+    uint_bits = {'guint8': 8, 'guint16': 16, 'gushort': 16, 'guint32': 32, 'guint': 32, 'guint64': 64, 'gsize': 64,
+                 'gulong': 64, 'size_t': 64, 'unsigned': 32}
+    idx_var_type, idx_ret_type = '', ''
+    mm = re.search(r'\b(\w+)\s*=\s*_gi_typelib_hash_builder_get_buffer_size\s*\(', mod)
+    if mm:
+        var = mm.group(1)
+        before = mod[:mm.start()]
+        decls = re.findall(r'\b(\w+)\s+(?:\w+\s*,\s*)*%s\s*(?:=[^;,]*)?[;,]' % re.escape(var), before)
+        if decls:
+            idx_var_type = decls[-1]
+    try:
+        gth = strip_comments(read('gthash.c'))
+        mm = re.search(r'\b(\w+)\s+_gi_typelib_hash_builder_get_buffer_size\s*\(', gth)
+        if mm:
+            idx_ret_type = mm.group(1)
+    except OSError:
+        pass
+    idx_bits = uint_bits.get(idx_var_type, 0)        # 0: not found / not an unsigned integer type we know
+
     text = '''-- GENERATED by translators/gen_typelib_consts.py from girepository/gitypelib.c, girmodule.c,
 -- girnode.c and gitypelib-internal.h. Do not edit.
 namespace GIVerif.Gen
@@ -136,12 +159,20 @@ def majorVersionAccepted : Nat := %d
 def alignBoundaries : List Nat := %s
 def alignMacro : List String := %s
 
+/-- the directory index section: C type (and its width in bits, 0 = unknown) of the variable of
+    girmodule.c that receives `_gi_typelib_hash_builder_get_buffer_size ()`, and the return type
+    of that function (gthash.c) -/
+def dirIndexSizeType : String := %s
+def dirIndexSizeBits : Nat := %d
+def dirIndexBuilderSizeType : String := %s
+
 end GIVerif.Gen
 ''' % (lean_list(['(%s, %d)' % (lean_str(a), b) for a, b in check_sizes]),
        lean_list(['(%s, %s, %d)' % (lean_str(a), lean_str(b), c) for a, b, c in assigns]),
        lean_list(['(%s, %s)' % (lean_str(a), lean_str(b)) for a, b in checks]),
        lean_list([str(b) for b in magic]), accessor, async_s, nsect, major_written, major_accepted,
-       lean_list([str(b) for b in aligns]), lean_list([lean_str(d) for d in align_def]))
+       lean_list([str(b) for b in aligns]), lean_list([lean_str(d) for d in align_def]),
+       lean_str(idx_var_type), idx_bits, lean_str(idx_ret_type))
     path, digest, changed = write_if_changed('TypelibConsts.lean', text)
     print('gen_typelib_consts: %s sha256=%s changed=%s check_sizes=%d written=%d checked=%d magic=%d'
           % (path, digest[:12], changed, len(check_sizes), len(assigns), len(checks), len(magic)))
